@@ -217,7 +217,7 @@ def analyse_switch(prog, res, f, sel_idx, dest_idx, src_desc, ctype_of, sizeof_o
                         store_sites.append((bid, idx, node, dict(pre)))
                 # returns
                 if el.get("k") == "ret" and el.get("e") is not None:
-                    rv = an.ev(el["e"], dict(pre), True)
+                    rv = an.val(bid, idx, el["e"])
                     nst = pre.get(STORES, AV(0, 0))
                     # a return that is not a constant (consumed length `end - src`) is a success return
                     sgn = "pos" if (rv.lo > 0 or not rv.is_const()) else ("neg" if rv.hi < 0 else "zero")
